@@ -10,7 +10,7 @@ from .match import Expander, text
 from .report import Report
 from .rules_schema import chains_to_super, groom_overrides, loc, reducer, renames_in
 from .schema import BASE, Schema
-from .source import AnalysisError
+from .source import AnalysisError, dotted
 
 
 def u_rules(schema: Schema, rep: Report):
@@ -279,10 +279,46 @@ def u_r9_overrides_only_retag(schema: Schema, rep: Report):
     """class-specific grooming renames tags; it never edits data"""
     rep.rule("U-R9", "groom() / ungroom() overrides of model classes only rename elements (<child>.tag = ...) on their way to and from the model: none of them writes element data (.text / .tail), attributes, or adds / removes / reorders children - the reader would hand the model a value that is not in the document, and what was written would not be read back")
     n = 0
-    for ci, nm, fn in groom_overrides(schema):
+    for ci, nm, fn0_ in groom_overrides(schema):
         n += 1
         bad = None
+        # private helpers (module-level or of the class) are part of the override
+        try:
+            from .flat import flat
+
+            fn = flat(ci.project, ci.module, fn0_, ci)
+        except Exception:
+            fn = fn0_
+        elems = set(params_of(fn0_)) | {"elem", "copy", "root", "node"}
         for st in ast.walk(fn):
+            # names bound to (a copy of) the element
+            if isinstance(st, ast.Assign) and len(st.targets) == 1 and isinstance(st.targets[0], ast.Name):
+                v_ = st.value
+                while isinstance(v_, ast.Call) and (dotted(v_.func) or "").split(".")[-1] in ("deepcopy", "copy") and len(v_.args) == 1:
+                    v_ = v_.args[0]
+                if isinstance(v_, ast.Name) and v_.id in elems:
+                    elems.add(st.targets[0].id)
+        # helpers that could not be inlined (nested functions, loops) and are handed the element: their bodies count too
+        from .source import Func as _Func
+
+        bodies = [fn]
+        for c_ in ast.walk(fn):
+            if isinstance(c_, ast.Call) and isinstance(c_.func, ast.Name):
+                r_ = ci.project.resolve(ci.module, c_.func.id)
+                if isinstance(r_, _Func) and r_.node is not fn0_:
+                    hp = params_of(r_.node)
+                    passed = [hp[i] for i, a_ in enumerate(c_.args) if i < len(hp) and isinstance(a_, ast.Name) and a_.id in elems]
+                    if passed:
+                        bodies.append(r_.node)
+                        elems |= set(passed)
+                        for st in ast.walk(r_.node):
+                            if isinstance(st, ast.Assign) and len(st.targets) == 1 and isinstance(st.targets[0], ast.Name):
+                                v_ = st.value
+                                while isinstance(v_, ast.Call) and (dotted(v_.func) or "").split(".")[-1] in ("deepcopy", "copy") and len(v_.args) == 1:
+                                    v_ = v_.args[0]
+                                if isinstance(v_, ast.Name) and v_.id in elems:
+                                    elems.add(st.targets[0].id)
+        for st in (x_ for b_ in bodies for x_ in ast.walk(b_)):
             tgts = []
             if isinstance(st, ast.Assign):
                 tgts = st.targets
@@ -293,10 +329,92 @@ def u_r9_overrides_only_retag(schema: Schema, rep: Report):
                     bad = bad or (st, f"{text(t)} = ...")
                 if isinstance(t, ast.Subscript) and isinstance(t.value, ast.Attribute) and t.value.attr == "attrib":
                     bad = bad or (st, f"{text(t)} = ...")
+                if isinstance(t, ast.Subscript) and isinstance(t.value, ast.Name) and t.value.id in elems:
+                    # elem[:] = ... / elem[i] = ...: the children are replaced / re-sequenced
+                    bad = bad or (st, f"{text(t)} = {text(st.value)[:30] if hasattr(st, 'value') and st.value is not None else '...'} (children replaced or re-sequenced: the declared order of the children is no longer checked against the document)")
             if isinstance(st, ast.Call) and isinstance(st.func, ast.Attribute) and st.func.attr in ("remove", "insert", "append", "extend", "clear", "set") and not (isinstance(st.func.value, ast.Name) and st.func.value.id in ("logger", "warnings")):
                 # structural edits of the element (list-like API of ET.Element)
                 recv = st.func.value
-                if isinstance(recv, ast.Name) and recv.id in params_of(fn) + ["elem", "copy", "root", "node"]:
+                if isinstance(recv, ast.Name) and recv.id in elems:
                     bad = bad or (st, f"{text(st)[:50]}")
-        rep.check("U-R9", f"{ci.name}.{nm}:renames-only", bad is None, f"{ci.name}.{nm} executes {bad[1]}: element data / structure is edited on the way into (or out of) the model, so the converted value differs from the document's and a written instance does not read back equal" if bad else "", loc(ci, bad[0] if bad else fn))
+        rep.check("U-R9", f"{ci.name}.{nm}:renames-only", bad is None, f"{ci.name}.{nm} executes {bad[1]}: element data / structure is edited on the way into (or out of) the model, so the converted value differs from the document's and a written instance does not read back equal" if bad else "", loc(ci, fn0_))
     rep.unit("groom_overrides_checked", n)
+
+
+def u_r1b_loop_state_on_unknown_path(schema: Schema, rep: Report):
+    """loop form of the fold: what the loop carries from child to child is untouched when the child's tag is unknown"""
+    from .rules_schema import _fn
+
+    rep.rule("U-R1b", "when the children are folded by an explicit loop: the variables the loop carries from one child to the next and tests in a condition (previous index, previous-is-list-member, previous tag ...) are not assigned on the way to, or inside, the unknown-tag branch (the branch that warns UnknownTagWarning and moves on) - otherwise an unknown tag changes how the children AFTER it are read")
+    p = schema.p
+    rel = p.module(BASE).relpath
+    outer = _fn(p, "Aggregate._convert").node
+    has_reduce = any(isinstance(n, ast.Call) and dotted(n.func) in ("functools.reduce", "reduce") for n in own_nodes(outer))
+    if has_reduce:
+        rep.check("U-R1b", "_convert:fold-form", True, "functools.reduce: the accumulator discipline is U-R1's", f"{rel}:{outer.lineno}")
+        return
+
+    def is_unknown_warn(c):
+        return isinstance(c, ast.Call) and text(c.func).split(".")[-1] == "warn" and any("UnknownTagWarning" in text(a) for a in list(c.args) + [k.value for k in c.keywords])
+
+    loops = [st for st in own_statements(outer) if isinstance(st, ast.For) and any(is_unknown_warn(c) for c in ast.walk(st))]
+    if len(loops) != 1:
+        rep.note(f"U-R1b undecided: {len(loops)} loops over the children warn about unknown tags")
+        return
+    loop = loops[0]
+    # innermost branch (except handler / if arm) holding the warning
+    chain = []  # [(container statement list, index of the statement leading on)] from the loop body down
+
+    def descend(stmts):
+        for i, st in enumerate(stmts):
+            if not any(is_unknown_warn(c) for c in ast.walk(st)):
+                continue
+            chain.append((stmts, i))
+            for fld in ("body", "orelse", "finalbody"):
+                sub = getattr(st, fld, None)
+                if isinstance(sub, list) and any(is_unknown_warn(c) for x in sub for c in ast.walk(x)):
+                    return descend(sub) or (st, fld)
+            for h in getattr(st, "handlers", []) or []:
+                if any(is_unknown_warn(c) for x in h.body for c in ast.walk(x)):
+                    return descend(h.body) or (h, "body")
+            return None
+        return None
+
+    descend(loop.body)
+    if len(chain) < 2:
+        rep.note("U-R1b undecided: the unknown-tag warning is not inside a branch of the loop body")
+        return
+    branch_stmts = chain[-1][0]
+    # state the loop carries: bound before the loop, assigned in the loop, tested in a condition of the loop
+    before = set()
+    for st in own_statements(outer):
+        if st is loop:
+            break
+        if getattr(st, "lineno", 0) < loop.lineno:
+            for x in ast.walk(st):
+                if isinstance(x, ast.Name) and isinstance(x.ctx, ast.Store):
+                    before.add(x.id)
+    stored_in_loop = {x.id for x in ast.walk(loop) if isinstance(x, ast.Name) and isinstance(x.ctx, ast.Store)}
+    tested = set()
+    for x in ast.walk(loop):
+        if isinstance(x, (ast.If, ast.While, ast.IfExp, ast.Assert)):
+            tested |= {y.id for y in ast.walk(x.test) if isinstance(y, ast.Name)}
+    state = before & stored_in_loop & tested
+    # statements that run in the same iteration before the branch is entered + the branch itself
+    pre = []
+    for stmts, i in chain[:-1]:
+        pre += stmts[:i]
+        lead = stmts[i]
+        if isinstance(lead, ast.Try) and chain[chain.index((stmts, i)) + 1][0] is not lead.body:
+            pre += lead.body  # the handler runs after (part of) the try body
+    hits = []
+    for st in pre + list(branch_stmts):
+        for x in ast.walk(st):
+            if isinstance(x, ast.Name) and isinstance(x.ctx, ast.Store) and x.id in state:
+                hits.append((x.id, st))
+    rep.unit("loop_state_vars", len(state))
+    if hits:
+        nm, st = hits[0]
+        rep.check("U-R1b", f"_convert:loop:unknown-path-keeps:{nm}", False, f"`{nm}` is carried from child to child and tested in a condition, and it is assigned ({text(st)[:50]}) before the child's tag is known to be declared: after an unknown tag the following children are read against state the unknown tag set", f"{rel}:{st.lineno}")
+    else:
+        rep.check("U-R1b", "_convert:loop:unknown-path-keeps-state", True, f"state {sorted(state)}", f"{rel}:{loop.lineno}")
